@@ -31,6 +31,16 @@ def _limit_mem(gb):
     import resource
     def f():
         resource.setrlimit(resource.RLIMIT_AS, (gb << 30, gb << 30))
+        # long literals in generated case files / deep non-tail recursion under vm_compute need a
+        # large C stack (coqc otherwise dies with "Stack overflow")
+        try:
+            resource.setrlimit(resource.RLIMIT_STACK, (resource.RLIM_INFINITY, resource.RLIM_INFINITY))
+        except (ValueError, OSError):
+            try:
+                soft, hard = resource.getrlimit(resource.RLIMIT_STACK)
+                resource.setrlimit(resource.RLIMIT_STACK, (hard, hard))
+            except (ValueError, OSError):
+                pass
     return f
 
 
